@@ -913,6 +913,9 @@ type c19call struct {
 }
 
 func c19Concurrent(x *xctx) *violation {
+	if c19ProfBytes == nil {
+		c19ProfBytes = c19Profile()
+	}
 	t := x.t
 	K := simrt.KGen
 	freshProcess(true)
